@@ -236,7 +236,16 @@ def run(chk: common.Check):
             chk.count(1, key=("pose", name, kind, ri, tuple(sh)))
             why = cmp_heavy(h0, heavy_record(mol1))
             if why:
-                found.append((f"heavy-atom-part:{kind}", f"{name} rot#{ri} shift {sh}: {why}",
+                sig = f"heavy-atom-part:{kind}"
+                # a terminal oxygen bonded to TWO carbons (distorted geometry: OXT within 2 A of CA): CtermGroup.setup_atoms takes `the_carbons[0]`,
+                # i.e. whichever bond the cell list found first, which depends on the pose
+                lab = why.split(":")[0]
+                if lab.startswith("C-"):
+                    for cname in mol1.conformation_names:
+                        for g in mol1.conformations[cname].groups:
+                            if g.label.strip() == lab.strip() and len([b for b in g.atom.bonded_atoms if b.element == "C"]) >= 2:
+                                sig = "cterminus-centre-depends-on-bond-order"
+                found.append((sig, f"{name} rot#{ri} shift {sh}: {why}",
                               {"case": name, "rotation": rots[ri] if ri is not None else None, "shift": sh, "options": opts, "pdb_text": text if len(text) < 250000 else None}))
             if tol is not None:
                 d = cmp_full(r0, structures.records(mol1), tol)
@@ -260,6 +269,7 @@ def run(chk: common.Check):
     study("3SGB-subset protein, hydrogens built", small, [], PKA_TOL_BUILT, poses(23 if chk.thorough else 8, 3), "built-hydrogens")
     study("3SGB-subset protein, hydrogens supplied", with_hydrogens(small), ["--keep-protons"], TOL_EXACT, poses(23 if chk.thorough else 8, 3), "keep-protons")
     study("1HPX with ligand (heavy-atom part only)", structures.read("1HPX.pdb"), [], None, poses(4 if chk.thorough else 2, 1), "heavy")
+    study("sample-issue-140 (heavy-atom part only)", structures.read("sample-issue-140.pdb"), [], None, [(ri, (12.345, -7.5, 3.2)) for ri in (range(24) if chk.thorough else (3, 7, 11, 15, 22))], "heavy")
     if chk.thorough:
         study("3SGB with hetero groups (heavy-atom part only)", structures.read("3SGB.pdb"), [], None, poses(3, 1), "heavy")
         p1 = protein_only(structures.read("1FTJ-Chain-A.pdb"))
